@@ -64,6 +64,7 @@ PROPS = {
                  "seeded store (matching orphans, stale owned, drifted, foreign-owned look-alikes, non-matching orphans, other-namespace namesakes) x history (syncs, parent edits, external delete/drift); "
                  "non-trivial = the first sync issued at least one child write and the initial store held at least one seeded object; distinct = distinct choice sequences"),
         "jobs": [
+            {"name": "c01-known-probes", "pkg": COMPOSITE, "tests": ["TestVerifKnownProbesC01"]},
             {"name": "c01-regress", "pkg": COMPOSITE, "tests": ["TestVerifC01Regressions", "TestVerifC01RegressionsEcho"]},
             {"name": "c01-composite", "pkg": COMPOSITE, "tests": ["TestVerifC01Composite"],
              "checks": {"quick": 2400, "thorough": 100000}, "shards": {"quick": 6, "thorough": 8}},
@@ -79,6 +80,7 @@ PROPS = {
                  "and 0-3 outside operations (delete, delete+recreate unowned/foreign, controller-reference transfer, relabel, orphan, nested sync of the other parent) interposed before a chosen request; "
                  "non-trivial = an interposed operation actually ran between two controller requests, or a child write was accepted in a store holding seeded look-alikes; distinct = distinct choice sequences"),
         "jobs": [
+            {"name": "c02-known-probes", "pkg": COMPOSITE, "tests": ["TestVerifKnownProbesC02"]},
             {"name": "c02-composite", "pkg": COMPOSITE, "tests": ["TestVerifC02Composite"],
              "checks": {"quick": 3000, "thorough": 150000}, "shards": {"quick": 6, "thorough": 8}},
             {"name": "c02-decorator", "pkg": DECORATOR, "tests": ["TestVerifC02Decorator"],
@@ -132,6 +134,7 @@ PROPS = {
         "rule": ("rapid-generated rollouts of 1-6 rolling children x RollingInPlace/RollingRecreate x status checks x field paths x fixed/replicated names, one revisioned change and optionally a second change (revisioned or scale) 0-2 syncs later, "
                  "all under the fair environment; non-trivial = at least 2 rolling children; distinct = distinct choice sequences"),
         "jobs": [
+            {"name": "c08-known-probes", "pkg": COMPOSITE, "tests": ["TestVerifKnownProbesC08"]},
             {"name": "c08-regress", "pkg": COMPOSITE, "tests": ["TestVerifC08Regressions", "TestVerifC08RegressionsScale"]},
             {"name": "c08-rand", "pkg": COMPOSITE, "tests": ["TestVerifC08Random"],
              "checks": {"quick": 1600, "thorough": 60000}, "shards": {"quick": 8, "thorough": 12}},
